@@ -39,6 +39,19 @@ func c16GenMessage(rng *rand.Rand, partialEsc bool) string {
 		if rng.Intn(5) == 0 {
 			return sev[rng.Intn(len(sev))] + fieldPool[rng.Intn(len(fieldPool))]
 		}
+		if rng.Intn(10) == 0 {
+			// text in a legacy encoding or with letters whose case mapping changes
+			// their length, followed somewhere by a severity word in any case
+			pre := []string{"\xe9t\xe9 \xe0 para\xeetre: erreur ", "caf\xe9 \xff\xfe\xfd\xfc\xfb ", "\u0250\u0250\u0250\u0250\u0250 ", "\u0130stanbul \u0131\u0131 ",
+				"stra\u00dfe \ufb01\ufb02 ", "\xc3\x28\xa0\xa1 ", "\u1e9e\u1e9e "}[rng.Intn(7)]
+			word := []string{"fatal", "error", "warn", "Error:", "FATAL", "Warning", "eRRoR"}[rng.Intn(7)]
+			post := []string{"", " x", " in module", "!"}[rng.Intn(4)]
+			b := make([]byte, rng.Intn(6))
+			for i := range b {
+				b[i] = byte(0x80 + rng.Intn(0x80))
+			}
+			return strings.NewReplacer("\xac", "x").Replace(string(b)) + pre + word + post
+		}
 		if rng.Intn(12) == 0 {
 			b := make([]byte, rng.Intn(12))
 			for i := range b {
